@@ -90,7 +90,7 @@ var Inflation = []string{
 
 func (P) Generate(g *hx.Gen) {
 	g.Case("corpus: short-ring inflation", WithReceipts(Inflation), true)
-	n := g.Pick(40, 1200)
+	n := g.Pick(200, 1200)
 	for k := 0; k < n; k++ {
 		trie := g.Rng.Intn(2)
 		ops := []string{hx.CaseOp(), fmt.Sprintf("chain trie=%d accts=3 wallets=2 seed=%d", trie, 1+g.Rng.Intn(1000)), "bal"}
